@@ -74,6 +74,8 @@ def judge_packing(case, fmt, ot, got, names, model_ans, drop_zeros=False):
         return [(None, lambda a: ("oversize-accepted", "an item exceeds the bin size but no ValueError was raised"))]
     if _is_err(got):
         return [(None, lambda a: ("exception:" + got["error"], "raised " + got["error"] + " on a feasible input"))]
+    if _is_none(got) or not isinstance(got, dict) or "sums" not in got:
+        return [(None, lambda a: ("missing-result", f"no packing was returned: {got!r}"))]
     if not _sums_ok(got["sums"]):
         return [(None, lambda a: ("bad-sums", f"non-integral or negative sums {got['sums']}"))]
     c = case
@@ -96,6 +98,8 @@ def judge_cover(case, fmt, ot, got, names, model_ans):
     B = case["p"]["B"]
     if _is_err(got):
         return [(None, lambda a: ("exception:" + got["error"], "raised " + got["error"]))]
+    if _is_none(got) or not isinstance(got, dict) or "sums" not in got:
+        return [(None, lambda a: ("missing-result", f"no cover was returned: {got!r}"))]
     if not _sums_ok(got["sums"]):
         return [(None, lambda a: ("bad-sums", f"non-integral or negative sums {got['sums']}"))]
     line = f"check_cover B={B} items={_items_line(case)} sums={f_nats(got['sums'])} bins={_bins_line(case, names, got['bins'])}"
